@@ -27,6 +27,8 @@ package keyed
 //@ ghostmap xfin: ref -> ref owned
 //@ ghostmap xdone: ref -> bool by xfin
 //@ ghostmap recof: ref -> ref once
+//@ ghostmap addedidx: any -> int local
+//@ ghostmap removedidx: any -> int local
 //
 //@ object Keyed
 //@   props C06 C07 C13
@@ -169,12 +171,14 @@ package keyed
 //@   opt frame = skip
 //@   opt caller-owned = keys
 //@   opt own-slices = added removed
+//@   ghost aftercall newRunningRoutine: addedidx(key) := len(added)
+//@   ghost backedge 2: removedidx(key) := ite(in(routines, key), removedidx(key), len(removed) - 1)
 //@   requires k != nil
 //@   loop 1 invariant inv: ginvs() && k.routines != nil && k.ctorCb != nil && routines != nil
 //@   loop 1 invariant ownlist: arr(added) == nil || (fresh(arr(added)) && allocated(arr(added)))
 //@   loop 1 invariant addedsound: forall j: int {added[j]} :: 0 <= j && j < len(added) ==> in(routines, added[j]) && (forall nk: any :: nk == added[j] ==> !csold(in(k.routines, nk)))
-//@   loop 1 invariant addedcomplete: forall key: any {routines[key]} :: in(routines, key) && !csold(in(k.routines, key)) ==> exists j: int :: 0 <= j && j < len(added) && added[j] == key
-//@   loop 1 invariant addeddistinct: forall i: int, j: int {added[i], added[j]} :: 0 <= i && i < j && j < len(added) ==> added[i] != added[j]
+//@   loop 1 invariant addedcomplete: forall key: any {routines[key]} :: in(routines, key) && !csold(in(k.routines, key)) ==> 0 <= addedidx(key) && addedidx(key) < len(added) && added[addedidx(key)] == key
+//@   loop 1 invariant addeddistinct: forall j: int {added[j]} :: 0 <= j && j < len(added) ==> addedidx(added[j]) == j
 //@   loop 1 invariant chain: forall key: any {k.routines[key]} :: in(k.routines, key) ==> k.routines[key].exitedCh == rlast(k.routines[key]) || (k.routines[key].exitedCh == nil && (rlast(k.routines[key]) == nil || closed(rlast(k.routines[key]))))
 //@   loop 1 invariant records: forall rr: *runningRoutine {rr.k} :: rr.k == k && rr.ctx != nil ==> chof(rr.ctx) != nil && ((!rr.exited ==> rr.exitedCh != nil && chof(rr.ctx) == rr.exitedCh) && (rr.exited ==> xdone(chof(rr.ctx))))
 //@   loop 1 invariant entries: forall key: any {k.routines[key]} :: in(k.routines, key) ==> k.routines[key] != nil && k.routines[key].k == k && k.routines[key].key == key
@@ -188,9 +192,9 @@ package keyed
 //@   loop 2 invariant inv: ginvs() && k.routines != nil && k.ctorCb != nil && routines != nil
 //@   loop 2 invariant ownlist: (arr(removed) == nil || (fresh(arr(removed)) && allocated(arr(removed)))) && (arr(added) == nil || (fresh(arr(added)) && allocated(arr(added)))) && (arr(removed) == nil || arr(removed) != arr(added))
 //@   loop 2 invariant removedsound: forall j: int {removed[j]} :: 0 <= j && j < len(removed) ==> visited(removed[j]) && !in(routines, removed[j]) && (forall nk: any :: nk == removed[j] ==> csold(in(k.routines, nk)))
-//@   loop 2 invariant removedcomplete: forall key: any {routines[key]} :: visited(key) && !in(routines, key) ==> exists j: int :: 0 <= j && j < len(removed) && removed[j] == key
-//@   loop 2 invariant removeddistinct: forall i: int, j: int {removed[i], removed[j]} :: 0 <= i && i < j && j < len(removed) ==> removed[i] != removed[j]
-//@   loop 2 invariant addedkept: (forall j: int {added[j]} :: 0 <= j && j < len(added) ==> in(routines, added[j]) && (forall nk: any :: nk == added[j] ==> !csold(in(k.routines, nk)))) && (forall key: any {routines[key]} :: in(routines, key) && !csold(in(k.routines, key)) ==> exists j: int :: 0 <= j && j < len(added) && added[j] == key)
+//@   loop 2 invariant removedcomplete: forall key: any {routines[key]} :: visited(key) && !in(routines, key) ==> 0 <= removedidx(key) && removedidx(key) < len(removed) && removed[removedidx(key)] == key
+//@   loop 2 invariant removeddistinct: forall j: int {removed[j]} :: 0 <= j && j < len(removed) ==> removedidx(removed[j]) == j
+//@   loop 2 invariant addedkept: (forall j: int {added[j]} :: 0 <= j && j < len(added) ==> in(routines, added[j]) && addedidx(added[j]) == j && (forall nk: any :: nk == added[j] ==> !csold(in(k.routines, nk)))) && (forall key: any {routines[key]} :: in(routines, key) && !csold(in(k.routines, key)) ==> 0 <= addedidx(key) && addedidx(key) < len(added) && added[addedidx(key)] == key)
 //@   loop 2 invariant chain: forall key: any {k.routines[key]} :: in(k.routines, key) ==> k.routines[key].exitedCh == rlast(k.routines[key]) || (k.routines[key].exitedCh == nil && (rlast(k.routines[key]) == nil || closed(rlast(k.routines[key]))))
 //@   loop 2 invariant records: forall rr: *runningRoutine {rr.k} :: rr.k == k && rr.ctx != nil ==> chof(rr.ctx) != nil && ((!rr.exited ==> rr.exitedCh != nil && chof(rr.ctx) == rr.exitedCh) && (rr.exited ==> xdone(chof(rr.ctx))))
 //@   loop 2 invariant entries: forall key: any {k.routines[key]} :: in(k.routines, key) ==> k.routines[key] != nil && k.routines[key].k == k && k.routines[key].key == key
@@ -202,8 +206,8 @@ package keyed
 //@   loop 2 invariant done: forall j: int {keys[j]} :: 0 <= j && j < len(keys) ==> in(routines, keys[j])
 //@   loop 2 invariant handled: forall key: any {k.routines[key]} :: in(k.routines, key) && visited(key) && !in(routines, key) ==> k.routines[key].deferRemove != nil && k.releaseDelay != 0
 //@   loop 2 invariant shrunk: forall key: any {k.routines[key]} :: in(k.routines, key) ==> csold(in(k.routines, key)) || in(routines, key)
-//@   assert unlock 1: addedlist: (forall j: int {added[j]} :: 0 <= j && j < len(added) ==> in(routines, added[j]) && (forall nk: any :: nk == added[j] ==> !csold(in(k.routines, nk)))) && (forall key: any {routines[key]} :: in(routines, key) && !csold(in(k.routines, key)) ==> exists j: int :: 0 <= j && j < len(added) && added[j] == key)
-//@   assert unlock 1: removedlist: (forall j: int {removed[j]} :: 0 <= j && j < len(removed) ==> !in(routines, removed[j]) && (forall nk: any :: nk == removed[j] ==> csold(in(k.routines, nk)))) && (forall key: any {routines[key]} :: csold(in(k.routines, key)) && !in(routines, key) ==> exists j: int :: 0 <= j && j < len(removed) && removed[j] == key)
+//@   assert unlock 1: addedlist: (forall j: int {added[j]} :: 0 <= j && j < len(added) ==> in(routines, added[j]) && addedidx(added[j]) == j && (forall nk: any :: nk == added[j] ==> !csold(in(k.routines, nk)))) && (forall key: any {routines[key]} :: in(routines, key) && !csold(in(k.routines, key)) ==> 0 <= addedidx(key) && addedidx(key) < len(added) && added[addedidx(key)] == key)
+//@   assert unlock 1: removedlist: (forall j: int {removed[j]} :: 0 <= j && j < len(removed) ==> !in(routines, removed[j]) && removedidx(removed[j]) == j && (forall nk: any :: nk == removed[j] ==> csold(in(k.routines, nk)))) && (forall key: any {routines[key]} :: csold(in(k.routines, key)) && !in(routines, key) ==> 0 <= removedidx(key) && removedidx(key) < len(removed) && removed[removedidx(key)] == key)
 //@   loop 1 invariant retrykept[C07]: !restart ==> forall key: any {k.routines[key]} :: csold(in(k.routines, key)) ==> k.routines[key].deferRetry == csold(k.routines[key].deferRetry)
 //@   loop 2 invariant retrykept[C07]: !restart ==> forall key: any {k.routines[key]} :: csold(in(k.routines, key)) && in(routines, key) ==> k.routines[key].deferRetry == csold(k.routines[key].deferRetry)
 //@   assert unlock 1: keepretry[C07]: !restart ==> forall key: any {k.routines[key]} :: csold(in(k.routines, key)) && in(routines, key) ==> k.routines[key].deferRetry == csold(k.routines[key].deferRetry)
